@@ -32,6 +32,7 @@ EST = CC.EST
 
 
 def check(rep, an, tier):
+    R.rule_alias(rep, an.model, "dreye.api.estimator", "ReceptorEstimator", "compute_gamut", "compute_hull")
     # ---- mean width: degree 1, seeded
     for vec in (False, True):
         for center in (False, True):
